@@ -142,7 +142,7 @@ def finish(ctx, level, t0, checker_cmd, extra_cov=None, trusted=None):
     prop = ctx.prop
     # floors: a rule that matched fewer instances than confirmed by hand is broken analysis
     for rid, r in ctx.rules.items():
-        if r['instances'] < r['floor']:
+        if r['instances'] < r['floor'] and r['violations'] == 0:
             raise AnalysisBroken('%s: rule %s matched %d instance(s), floor is %d (%s)'
                                  % (prop, rid, r['instances'], r['floor'], r['desc']))
     known = [k for k in load_known() if k.get('property') == prop]
